@@ -302,6 +302,6 @@ class CodeBase:
         Iterate over all files in the code base by walking each directory.
         """
         for directory in self.directories:
-            for path in Path(directory).rglob("*"):
+            for path in sorted(Path(directory).rglob("*")):
                 if self.__contains__(path):
                     yield str(path)
